@@ -71,11 +71,13 @@ def term_index_in_range(self, result) -> bool:
 
 # ---- LookupDecoder
 def decoder_shape(self) -> bool:
+    """Live entries never exceed the declared size (representation-agnostic: deque, list or dict)."""
     size = self.lookup_size
-    ok = len(self.data) == size and 0 <= self.last_assigned_index <= max(size, 0) + 0 \
-        and self.last_reused_index >= 0
-    return _record("LookupDecoder.shape", ok,
-                   f"len={len(self.data)} size={size} assigned={self.last_assigned_index}")
+    data = self.data
+    vals = data.values() if isinstance(data, dict) else data
+    live = sum(1 for v in vals if v is not None)
+    ok = live <= size and self.last_reused_index >= 0 and self.last_assigned_index >= 0
+    return _record("LookupDecoder.shape", ok, f"live={live} size={size} assigned={self.last_assigned_index}")
 
 
 def arm() -> None:
